@@ -54,6 +54,10 @@ pub struct Cfg {
     pub pool_cto: String,
     #[serde(default)]
     pub pool_rto: String,
+    /// order of the builder calls: 0 = max_size, queue_mode; 1 = queue_mode, max_size;
+    /// 2 = config(PoolConfig { queue_mode, .. }), max_size; 3 = max_size, config(PoolConfig { max_size, queue_mode, .. })
+    #[serde(default)]
+    pub build_order: u8,
 }
 fn yes() -> bool {
     true
@@ -832,6 +836,12 @@ pub struct World {
     pub lazy: Vec<bool>,
     /// how many such parks there were
     pub lazy_parks: usize,
+    /// tasks whose `Go` was sent ahead of time: they are (supposed to be) blocked on the slots mutex
+    pub early: Vec<bool>,
+    /// reports that arrived from a task other than the one being waited for
+    pending_rep: Vec<Option<Report>>,
+    /// early tasks that reported while the lock was still held: they did not wait for it
+    pub premature: usize,
 }
 
 #[derive(Clone, Debug, Default, PartialEq, Eq, Serialize)]
@@ -849,9 +859,22 @@ pub struct Snap {
 impl World {
     pub fn new(cfg: Cfg) -> World {
         let truth: TruthRef = Arc::new(Mutex::new(Truth::new()));
-        let mut b = Pool::builder(Mgr { truth: truth.clone() })
-            .max_size(cfg.init_max)
-            .queue_mode(if cfg.lifo { QueueMode::Lifo } else { QueueMode::Fifo });
+        let qm = if cfg.lifo { QueueMode::Lifo } else { QueueMode::Fifo };
+        let b0 = Pool::builder(Mgr { truth: truth.clone() });
+        let mut b = match cfg.build_order {
+            1 => b0.queue_mode(qm).max_size(cfg.init_max),
+            2 => {
+                let mut pc = deadpool::managed::PoolConfig::new(cfg.init_max + 7);
+                pc.queue_mode = qm;
+                b0.config(pc).max_size(cfg.init_max)
+            }
+            3 => {
+                let mut pc = deadpool::managed::PoolConfig::new(cfg.init_max);
+                pc.queue_mode = qm;
+                b0.max_size(cfg.init_max + 7).config(pc)
+            }
+            _ => b0.max_size(cfg.init_max).queue_mode(qm),
+        };
         if cfg.has_runtime {
             b = b.runtime(Runtime::Tokio1);
         }
@@ -892,7 +915,7 @@ impl World {
                     .unwrap(),
             ));
         }
-        World { cfg, sh, cmd_tx, rep_rx, ts: vec![TState::Idle; n], last: vec![None; n], threads, hung: false, pre_woken: false, pre_closed: false, pre_idle: vec![], lazy: vec![false; n], lazy_parks: 0 }
+        World { cfg, sh, cmd_tx, rep_rx, ts: vec![TState::Idle; n], last: vec![None; n], threads, hung: false, pre_woken: false, pre_closed: false, pre_idle: vec![], lazy: vec![false; n], lazy_parks: 0, early: vec![false; n], pending_rep: vec![None; n], premature: 0 }
     }
 
     pub fn task_ix(&self, name: &str) -> Option<usize> {
@@ -968,14 +991,17 @@ impl World {
                 self.pre_idle = ids;
             }
         }
-        if self.cmd_tx[t].send(cmd).is_err() {
+        let skip_send = self.early[t] && matches!(cmd, Cmd::Go(_));
+        if skip_send {
+            // the command is already with the task (it was waiting for the slots mutex)
+            self.early[t] = false;
+        } else if self.cmd_tx[t].send(cmd).is_err() {
             self.hung = true;
             self.ts[t] = TState::Hung;
             return TState::Hung;
         }
-        match self.rep_rx.recv_timeout(HANG_TIMEOUT) {
-            Ok((ix, r)) => {
-                debug_assert_eq!(ix, t);
+        match self.recv_for(t) {
+            Some(r) => {
                 let st = match r {
                     Report::AtPoint(s) => TState::AtPoint(s),
                     Report::AtCall { kind, idx, obj, rc, rec } => TState::AtCall { kind, idx, obj, rc, rec },
@@ -986,17 +1012,60 @@ impl World {
                                 self.sh.truth.lock().unwrap().unexpected.push(m.clone());
                             }
                         }
-                        self.last[ix] = Some(res);
+                        self.last[t] = Some(res);
                         TState::Idle
                     }
                 };
-                self.ts[ix] = st.clone();
+                self.ts[t] = st.clone();
                 st
             }
-            Err(RecvTimeoutError::Timeout) | Err(RecvTimeoutError::Disconnected) => {
+            None => {
                 self.hung = true;
                 self.ts[t] = TState::Hung;
                 TState::Hung
+            }
+        }
+    }
+
+    /// next report of task `t`; reports of other tasks (sent ahead) are kept for later
+    fn recv_for(&mut self, t: usize) -> Option<Report> {
+        if let Some(r) = self.pending_rep[t].take() {
+            return Some(r);
+        }
+        loop {
+            match self.rep_rx.recv_timeout(HANG_TIMEOUT) {
+                Ok((ix, r)) if ix == t => return Some(r),
+                Ok((ix, r)) => {
+                    if self.early[ix] {
+                        // it was sent ahead and should still be waiting for the mutex the other task holds
+                        self.premature += 1;
+                    }
+                    self.pending_rep[ix] = Some(r);
+                }
+                Err(RecvTimeoutError::Timeout) | Err(RecvTimeoutError::Disconnected) => return None,
+            }
+        }
+    }
+
+    /// Send `Go` to a task parked in front of a critical section while another task holds the slots mutex:
+    /// the task blocks in `lock()` and goes on as soon as the holder lets go.  (Code that does not wait for
+    /// the mutex there reports back at once: `premature`.)
+    pub fn preissue(&mut self, t: usize) {
+        if self.early[t] || self.hung {
+            return;
+        }
+        if self.cmd_tx[t].send(Cmd::Go(None)).is_ok() {
+            self.early[t] = true;
+        }
+    }
+
+    /// wait until the task that was sent ahead has gone through (its report is kept for its own step)
+    pub fn await_early(&mut self, t: usize) {
+        if self.early[t] && self.pending_rep[t].is_none() {
+            if let Some(r) = self.recv_for(t) {
+                self.pending_rep[t] = Some(r);
+            } else {
+                self.hung = true;
             }
         }
     }
